@@ -37,10 +37,10 @@ Lemma extends_trans a b c : extends a b -> extends b c -> extends a c.
 Proof. intros [m1 H1] [m2 H2]. exists (m1 ++ m2). rewrite H2, H1, app_assoc. reflexivity. Qed.
 
 Lemma tick_extends s : extends s (fst (tick s)).
-Proof. unfold tick. exists []. simpl. now rewrite app_nil_r. Qed.
+Proof. unfold tick. exists []. destruct (_ =? _)%Z; simpl; now rewrite app_nil_r. Qed.
 
 Lemma tick_out s : out (fst (tick s)) = out s.
-Proof. reflexivity. Qed.
+Proof. unfold tick. destruct (_ =? _)%Z; reflexivity. Qed.
 
 Ltac dtick s s1 E1 :=
   let T := fresh "T" in let Ho := fresh "Ho" in
@@ -126,5 +126,5 @@ Definition w_wf : prog :=
    SLabelled 2%nat (SBlock [SBreak 2%nat; SExpr (ELog (ELit (VNum 9)))]);
    SReturn (EVar 10%nat)].
 Lemma w_wf_ok : wf (SBlock w_wf) = true /\
-  run_o 100 [10%nat] 0 w_wf = (mkst [(10%nat, VNum 2)] [VNum 1; VNum 2] 40 0, [], OReturned (VNum 2)).
+  run_o 100 [10%nat] 0 w_wf = (mkst [(10%nat, VNum 2)] [VNum 1; VNum 2] 44 0 None, [], OReturned (VNum 2)).
 Proof. split; vm_compute; reflexivity. Qed.
